@@ -24,6 +24,7 @@ carries over.  Otherwise the function is analysed as it stands.
 """
 import ast
 import copy
+import os
 
 from .core import call_name, dotted, params, target_names, u
 from .match import canon
@@ -31,7 +32,7 @@ from .rename import local_names
 
 PURE_FUNCS = {'len', 'range', 'int', 'float', 'abs', 'min', 'max', 'sum', 'sorted', 'list', 'tuple', 'zip',
               'enumerate', 'isinstance', 'type', 'hasattr', 'getattr', 'str', 'bool', 'set', 'dict', 'repr',
-              'slice', 'callable', 'any', 'all', 'reversed', 'round', 'divmod'}
+              'slice', 'callable', 'any', 'all', 'reversed', 'round', 'divmod', '__cy_cast__', 'fabs'}
 PURE_METHODS = {'sum', 'max', 'min', 'argmax', 'argmin', 'copy', 'astype', 'reshape', 'flatten', 'ravel', 'toarray',
                 'todense', 'tolil', 'tocsr', 'tocsc', 'tocoo', 'transpose', 'mean', 'all', 'any', 'cumsum', 'argsort',
                 'dot', 'multiply', 'squeeze', 'items', 'keys', 'values', 'get', 'format', 'tolist', 'nonzero',
@@ -54,6 +55,7 @@ SIGNATURES = {
     'warnings.warn': ['message', 'category'], 'scipy.sparse.linalg.eigs': ['A', 'k'],
     'scipy.sparse.dia_matrix': ['arg1', 'shape'], 'scipy.sparse.coo_matrix': ['arg1', 'shape'],
     'ra.RaggedArray': ['array', 'lengths'], 'RaggedArray': ['array', 'lengths'],
+    'connected_components': ['csgraph', 'directed', 'connection', 'return_labels'],
 }
 
 
@@ -67,6 +69,8 @@ def is_pure(e):
             if isinstance(n.func, ast.Name):
                 if n.func.id not in PURE_FUNCS:
                     return False
+            elif cn in ('mpi.rank', 'mpi.size') and not n.args and not n.keywords:
+                pass        # enspara.mpi: the rank and the size of the world are constants of the process
             elif isinstance(n.func, ast.Attribute):
                 if cn.startswith('np.') or cn.startswith('numpy.') or cn.startswith('scipy.') or cn.startswith('math.'):
                     if cn in IMPURE_NP or '.random.' in cn:
@@ -291,8 +295,15 @@ def _clean_block(stmts):
     return res
 
 
-def _mutated_names(stmts):
-    """Names rebound or mutated anywhere in stmts -> list of (stmt index, name)."""
+def _mutated_names(stmts, kinds=False):
+    """Names rebound or mutated anywhere in stmts -> list of (stmt index, name)
+    [with kinds=True: (stmt index, name, kind), kind 'rebind' | 'element' (x[...] = v, x[...] op= v:
+    the shape, dtype and length of an ndarray x are unaffected) | 'other']."""
+    res = _mutated_names_k(stmts)
+    return res if kinds else [(i, n) for (i, n, k) in res]
+
+
+def _mutated_names_k(stmts):
     out = []
     for idx, s in enumerate(stmts):
         for n in ast.walk(s):
@@ -309,20 +320,23 @@ def _mutated_names(stmts):
                 for t in tgts:
                     for el in (t.elts if isinstance(t, (ast.Tuple, ast.List)) else [t]):
                         b = el
+                        kind = 'rebind' if isinstance(el, ast.Name) else (
+                            'element' if isinstance(el, ast.Subscript) and isinstance(el.value, ast.Name)
+                            and isinstance(n, (ast.Assign, ast.AugAssign)) else 'other')
                         while isinstance(b, (ast.Attribute, ast.Subscript, ast.Starred)):
                             b = b.value
                         if isinstance(b, ast.Name):
-                            out.append((idx, b.id))
+                            out.append((idx, b.id, kind))
                         elif isinstance(b, (ast.Tuple, ast.List)):
                             for tt in ast.walk(b):
                                 if isinstance(tt, ast.Name):
-                                    out.append((idx, tt.id))
+                                    out.append((idx, tt.id, 'rebind'))
             if isinstance(n, ast.Call) and isinstance(n.func, ast.Attribute) and n.func.attr in MUTATING_METHODS:
                 b = n.func.value
                 while isinstance(b, (ast.Attribute, ast.Subscript)):
                     b = b.value
                 if isinstance(b, ast.Name):
-                    out.append((idx, b.id))
+                    out.append((idx, b.id, 'other'))
             if isinstance(n, ast.Call):
                 for k in n.keywords:
                     if k.arg == 'out':
@@ -333,8 +347,23 @@ def _mutated_names(stmts):
                             while isinstance(b, (ast.Attribute, ast.Subscript)):
                                 b = b.value
                             if isinstance(b, ast.Name):
-                                out.append((idx, b.id))
+                                out.append((idx, b.id, 'other'))
     return out
+
+
+def _shape_only(e, nm):
+    """Every occurrence of nm in e is nm.shape / nm.ndim / nm.dtype / nm.size."""
+    ok = True
+    par = {}
+    for n in ast.walk(e):
+        for c in ast.iter_child_nodes(n):
+            par[c] = n
+    for n in ast.walk(e):
+        if isinstance(n, ast.Name) and n.id == nm:
+            p = par.get(n)
+            if not (isinstance(p, ast.Attribute) and p.attr in ('shape', 'ndim', 'dtype', 'size')):
+                ok = False
+    return ok
 
 
 class _Subst(ast.NodeTransformer):
@@ -377,7 +406,8 @@ def _inline_block(stmts, fn_locals, param_names, root=None):
     while changed and guard < 200:
         guard += 1
         changed = False
-        muts = _mutated_names(stmts)
+        muts3 = _mutated_names(stmts, kinds=True)
+        muts = [(a, b) for (a, b, c) in muts3]
         for i, s in enumerate(stmts):
             if not (isinstance(s, ast.Assign) and len(s.targets) == 1 and isinstance(s.targets[0], ast.Name)):
                 continue
@@ -409,7 +439,10 @@ def _inline_block(stmts, fn_locals, param_names, root=None):
             last = max(uses)
             # operands (and the name itself) untouched up to the last use
             bad = False
-            for (idx, nm) in muts:
+            shape_ops = {nm for nm in operands if _shape_only(e, nm)}
+            for (idx, nm, kind) in muts3:
+                if kind == 'element' and nm in shape_ops and nm != name:
+                    continue
                 if i < idx <= i + 1 + last and (nm in operands or nm == name):
                     # a store performed BY the statement of the last use happens
                     # after its operands were evaluated: harmless for simple
@@ -426,8 +459,8 @@ def _inline_block(stmts, fn_locals, param_names, root=None):
             for j in range(last + 1):
                 t = later[j]
                 if isinstance(t, (ast.For, ast.While)):
-                    inner = _mutated_names([t])
-                    if any(nm in operands for (_, nm) in inner):
+                    inner = _mutated_names([t], kinds=True)
+                    if any(nm in operands and not (kind == 'element' and nm in shape_ops) for (_, nm, kind) in inner):
                         bad = True
             if bad:
                 continue
@@ -515,20 +548,30 @@ def _ssa_lite(f):
     # how many definition sites does each name have?
     counts = _count_defs(f)
     for site in list(fi.cfg.nodes):
-        if not (isinstance(site, ast.Assign) and len(site.targets) == 1 and isinstance(site.targets[0], ast.Name)):
+        if isinstance(site, ast.Assign) and len(site.targets) == 1 and isinstance(site.targets[0], ast.Name):
+            tnodes = [site.targets[0]]
+        elif isinstance(site, ast.For) and isinstance(site.target, ast.Name):
+            tnodes = [site.target]
+        elif isinstance(site, ast.For) and isinstance(site.target, ast.Tuple) and all(isinstance(e, ast.Name) for e in site.target.elts):
+            tnodes = list(site.target.elts)
+        else:
             continue
-        name = site.targets[0].id
-        if counts.get(name, 0) + (1 if name in pnames else 0) <= 1:
-            continue
-        reached = [n for n, ds in uses.items() if n.id == name and site in ds]
-        if not reached or any(ds != {site} for n, ds in uses.items() if n in reached):
-            continue
-        # the value must not be observable after the function through the name
-        fresh = '%s__d%d' % (name, k)
-        k += 1
-        site.targets[0].id = fresh
-        for n in reached:
-            n.id = fresh
+        for tnode in tnodes:
+            name = tnode.id
+            if counts.get(name, 0) + (1 if name in pnames else 0) <= 1:
+                continue
+            reached = [n for n, ds in uses.items() if n.id == name and site in ds]
+            if not reached or any(ds != {site} for n, ds in uses.items() if n in reached):
+                continue
+            if isinstance(site, ast.For) and any(isinstance(n, ast.Name) and n.id == name and isinstance(n.ctx, (ast.Store, ast.Del))
+                                                 for b in site.body + site.orelse for n in ast.walk(b)):
+                continue
+            # the value must not be observable after the function through the name
+            fresh = '%s__d%d' % (name, k)
+            k += 1
+            tnode.id = fresh
+            for n in reached:
+                n.id = fresh
     return f
 
 
@@ -545,6 +588,49 @@ class _KeepApart(ast.NodeTransformer):
         return node
 
 
+def _hoist_declarations(f):
+    """Bare C declarations (`cdef double x` -> `x: 'double'`) may stand anywhere before the first use:
+    collect them at the top of the function, ordered by the first occurrence of the name in the code."""
+    decls = []
+
+    def strip(stmts):
+        out = []
+        for s in stmts:
+            if isinstance(s, ast.AnnAssign) and s.value is None and isinstance(s.target, ast.Name):
+                decls.append(s)
+                continue
+            for fld in ('body', 'orelse', 'finalbody'):
+                b = getattr(s, fld, None)
+                if isinstance(b, list) and b and isinstance(b[0], ast.stmt) and not isinstance(s, (ast.FunctionDef, ast.ClassDef)):
+                    setattr(s, fld, strip(b) or [ast.Pass()])
+            out.append(s)
+        return out
+    body = strip(f.body)
+    if not decls:
+        return
+    order = {}
+    for n in ast.walk(ast.Module(body=body, type_ignores=[])):
+        if isinstance(n, ast.Name) and n.id not in order:
+            order[n.id] = len(order)
+    decls.sort(key=lambda d: (order.get(d.target.id, 10 ** 6), d.target.id))
+    f.body = decls + (body or [ast.Pass()])
+
+
+class _LenOfTyped(ast.NodeTransformer):
+    """len(v) -> v.shape[0] for arguments declared as typed memoryviews / ndarray buffers (.pyx)."""
+
+    def __init__(self, names):
+        self.names = names
+
+    def visit_Call(self, node):
+        self.generic_visit(node)
+        if isinstance(node.func, ast.Name) and node.func.id == 'len' and len(node.args) == 1 and not node.keywords \
+                and isinstance(node.args[0], ast.Name) and node.args[0].id in self.names:
+            return ast.copy_location(ast.Subscript(value=ast.Attribute(value=node.args[0], attr='shape', ctx=ast.Load()),
+                                                   slice=ast.Constant(value=0), ctx=ast.Load()), node)
+        return node
+
+
 def normal_form(fn, sigs=None):
     f = copy.deepcopy(fn)
     f = canon(f)
@@ -552,21 +638,44 @@ def normal_form(fn, sigs=None):
         # np.array(x) was spelled x.copy() for rule matching; as a claim of
         # equivalence that is wrong for lists, so the normal form keeps them apart
         if isinstance(n, ast.Call) and getattr(n, '_from_np_array', False) and isinstance(n.func, ast.Attribute):
-            n.func.attr = 'copy__via_np_array'
+            n.args = [n.func.value]
+            n.func = ast.Attribute(value=ast.Name(id='np', ctx=ast.Load()), attr='array', ctx=ast.Load())
     f = _KeepApart().visit(f)
     f = _Extra(sigs).visit(f)
     f.decorator_list = list(f.decorator_list)
     f.body = _clean_block(f.body) or [ast.Pass()]
     ast.fix_missing_locations(f)
-    f = _ssa_lite(f)
     name = getattr(f, 'name', '')
     private = name.startswith('_') and not (name.startswith('__') and name.endswith('__'))
     pnames = set(params(f))
-    counts = _count_defs(f)
-    for p in pnames:
-        counts[p] = counts.get(p, 0) + 1
-    f.body = _inline_block(f.body, counts, pnames, f)
-    f.body = _clean_block(f.body) or [ast.Pass()]
+    use_idioms = os.environ.get('VERIF_NO_IDIOMS') != '1'
+    idi = None
+    if use_idioms:
+        from .idioms import Idioms
+        arrs = [k for k, v in getattr(fn, 'cy_argtypes', {}).items() if '[' in getattr(v, 'text', '') or 'ndarray' in getattr(v, 'text', '')]
+        idi = Idioms(f, sigs, is_pure, arrs)
+        if arrs:
+            _LenOfTyped(set(arrs)).visit(f)
+    prev = None
+    for _round in range(4):
+        if idi is not None:
+            idi.exprs()
+            f.body = idi.block(f.body, f) or [ast.Pass()]
+            ast.fix_missing_locations(f)
+        f = _ssa_lite(f)
+        counts = _count_defs(f)
+        for p in pnames:
+            counts[p] = counts.get(p, 0) + 1
+        f.body = _inline_block(f.body, counts, pnames, f)
+        f.body = _clean_block(f.body) or [ast.Pass()]
+        ast.fix_missing_locations(f)
+        cur = ast.dump(f)
+        if idi is None or cur == prev:
+            break
+        prev = cur
+    if idi is not None:
+        f = _Extra(sigs).visit(f)
+        _hoist_declarations(f)
     locs = local_names(f)
     if private:
         locs |= pnames
@@ -619,6 +728,9 @@ def package_signatures(mods):
             sigs[q] = sig
     for q in amb:
         sigs.pop(q, None)
+    from .idioms import return_arities, namedtuple_info
+    sigs['__arity__'] = return_arities(mods)
+    sigs['__nt__'], sigs['__returns_nt__'] = namedtuple_info(mods)
     return sigs
 
 
